@@ -441,11 +441,16 @@ func extCondWait(fr *frame, a []value) value {
 	p := a[0].(*value)
 	cs := i.condOf(p)
 	locker := (*p).(structure)[1].(iface) // sync.Cond.L
-	callMethod(fr, locker, "Unlock")
 	g := fr.g
+	// Wait atomically adds the caller to the notify list and unlocks:
+	// enqueue first, so that a Broadcast running right after the unlock
+	// (a pre-emption point) finds this goroutine.
 	g.wake = false
 	cs.waiters = append(cs.waiters, g)
-	i.park(g, "cond wait in "+fr.callerName(), func() bool { return g.wake })
+	callMethod(fr, locker, "Unlock")
+	if !g.wake {
+		i.park(g, "cond wait in "+fr.callerName(), func() bool { return g.wake })
+	}
 	g.wake = false
 	callMethod(fr, locker, "Lock")
 	return nil
